@@ -358,15 +358,15 @@ def shrink(src, still_fails, budget=40):
 def streams_for(pid, tier):
     q = tier == "quick"
     base = {
-        "soup": 12000 if q else 400000,
-        "strings": 4000 if q else 100000,
-        "numeric": 2000 if q else 50000,
-        "trunc": 6000 if q else 200000,
-        "open": 4000 if q else 100000,
-        "nl": 5000 if q else 150000,
-        "mb": 4000 if q else 100000,
-        "progs": 6000 if q else 150000,
-        "uws": 4000 if q else 100000,
+        "soup": 12000 if q else 150000,
+        "strings": 4000 if q else 40000,
+        "numeric": 2000 if q else 20000,
+        "trunc": 6000 if q else 80000,
+        "open": 4000 if q else 40000,
+        "nl": 5000 if q else 60000,
+        "mb": 4000 if q else 40000,
+        "progs": 6000 if q else 60000,
+        "uws": 4000 if q else 40000,
         "hexstr": 1500 if q else 40000,     # + the exhaustive 00..ff table (always)
     }
     return base
@@ -418,9 +418,9 @@ prop("C01", kind="total", modules=["SasLexer.Properties.C01"],
      theorems=["SasLexer.kernel_C01_offsets_in_range", "SasLexer.kernel_C01_release_panics", "SasLexer.evalFlags_roundtrip"],
      variants=["dev", "rel", "rel-sep", "dev-sep"], corr_outcomes=True)
 prop("C06", modules=["SasLexer.Properties.C06"], theorems=["SasLexer.C06_table_total", "SasLexer.C06_keyword_rows",
-                                                            "SasLexer.C06_model_channels", "SasLexer.model_channels", "SasLexer.ChanR_sound", "SasLexer.mainLoop_chan", "SasLexer.finalizeLexing_chan"],
+                                                            "SasLexer.C06_model_channels", "SasLexer.C06_model_tables", "SasLexer.model_payload_kinds", "SasLexer.model_channels", "SasLexer.ChanR_sound", "SasLexer.mainLoop_chan", "SasLexer.finalizeLexing_chan"],
      variants=["rel", "dev-sep", "dev"])
-prop("C07", modules=["SasLexer.Properties.C07"], theorems=["SasLexer.C07_hex_decode_spec", "SasLexer.hexPairs_eq_spec"],
+prop("C07", modules=["SasLexer.Properties.C07", "SasLexer.Properties.C06"], theorems=["SasLexer.C07_hex_decode_spec", "SasLexer.hexPairs_eq_spec", "SasLexer.model_payload_kinds", "SasLexer.ChanR_sound"],
      variants=["rel", "dev-sep", "dev"])
 prop("C08", modules=["SasLexer.Properties.C08"], theorems=["SasLexer.C08_decimal_integer", "SasLexer.C08_hex_integer"],
      variants=["rel", "dev-sep", "dev"])
@@ -642,6 +642,59 @@ def write_replay(pid, kind, payload):
     return p
 
 
+def tally_distribution(ev, s):
+    """what the explored inputs exercised (implementation dumps of one variant): token types, error kinds,
+    pending modes at end of input, token counts"""
+    d = ev.stats
+    try:
+        if len(s) < 9:
+            return
+        w = s[1].split()
+        n = int(w[1])
+        dist = ev.__dict__.setdefault("dist", {"tok_types": collections.Counter(), "err_kinds": collections.Counter(),
+                                               "end_modes": collections.Counter(), "tokens_per_input": collections.Counter()})
+        for i in range(n):
+            dist["tok_types"][w[2 + 8 * i + 1]] += 1
+        dist["tokens_per_input"][min(n // 8, 8)] += 1
+        e = s[4].split()
+        for i in range(int(e[1])):
+            dist["err_kinds"][e[2 + 6 * i]] += 1
+        x = s[7].split()
+        if len(x) > 7:
+            for m in x[7:]:
+                dist["end_modes"][m.split(":")[0]] += 1
+    except (ValueError, IndexError):
+        d["distribution_parse_errors"] += 1
+
+
+def distribution_summary(ev):
+    dist = getattr(ev, "dist", None)
+    if not dist:
+        return None
+    names = {}
+    for kind, f in (("tok", "TokenType"), ("err", "ErrorKind")):
+        try:
+            for l in open(os.path.join(ROOT, f"lean/SasLexer/Gen/{f}.lean")):
+                m = re.match(r"\s*\| \.(\w+) => (\d+)$", l)
+                if m:
+                    names.setdefault(kind, {}).setdefault(m.group(2), m.group(1))
+        except OSError:
+            pass
+    tn, en = names.get("tok", {}), names.get("err", {})
+    seen_t = set(dist["tok_types"])
+    seen_e = set(dist["err_kinds"])
+    return {
+        "token_types_seen": len(seen_t), "token_types_total": len(tn),
+        "token_types_never_seen": sorted(tn[k] for k in tn if k not in seen_t)[:80],
+        "error_kinds_seen": sorted(en.get(k, k) for k in seen_e), "error_kinds_total": len(en),
+        "error_kinds_never_seen": sorted(en[k] for k in en if k not in seen_e),
+        "errors_total": sum(dist["err_kinds"].values()),
+        "pending_modes_at_end_of_input": dict(dist["end_modes"].most_common()),
+        "tokens_per_input_histogram(bucket=n//8, last=64+)": dict(sorted(dist["tokens_per_input"].items())),
+        "rarest_token_types": [(tn.get(k, k), c) for k, c in sorted(dist["tok_types"].items(), key=lambda kv: kv[1])[:12]],
+    }
+
+
 def explore(ev, inputs, unit_list, cfg, do_correspondence=True):
     """returns fails [(vt, hex, clauses, info)], disagreements [(variant, hex, impl, model)], nontrivial set"""
     fails, disagree, nontrivial = [], [], set()
@@ -684,6 +737,8 @@ def explore(ev, inputs, unit_list, cfg, do_correspondence=True):
                 s = sections(a)
                 if len(s) >= 9 and int(s[1].split()[1]) >= 3:
                     nontrivial.add(h)
+                if v == "rel" or len(impl_by_variant) == 1:
+                    tally_distribution(ev, s)
     return fails, disagree, nontrivial
 
 
@@ -817,7 +872,7 @@ def check_property(pid, tier, seed):
 
     # ---- inputs
     if cfg["kind"] == "grammar":
-        n = 6000 if tier == "quick" else 150000
+        n = 6000 if tier == "quick" else 60000
         rc, out, err = run(["python3", os.path.join(ROOT, "tools/gen_grammar.py"), "--seed", str(seed), "-n", str(n),
                             "--mode", cfg["gmode"]])
         if rc != 0:
@@ -845,6 +900,9 @@ def check_property(pid, tier, seed):
     R.cov["input_len_bytes"] = {"min": min(lens), "max": max(lens), "mean": round(sum(lens) / len(lens), 1)}
 
     fails, disagree, nontrivial = explore(ev, inputs, unit_list, cfg)
+    ds = distribution_summary(ev)
+    if ds:
+        R.cov["input_distribution"] = ds
 
     if (broken or disagree) and not fails:
         log(f"[{pid}] proof/correspondence broken; searching for a failing input")
